@@ -19,6 +19,7 @@ import (
 	nvidiav1 "github.com/NVIDIA/gpu-operator/api/nvidia/v1"
 	monitoringv1 "github.com/prometheus-operator/prometheus-operator/pkg/apis/monitoring/v1"
 	admissionv1 "k8s.io/api/admissionregistration/v1"
+	corev1 "k8s.io/api/core/v1"
 	apiextensionsv1 "k8s.io/apiextensions-apiserver/pkg/apis/apiextensions/v1"
 	metav1 "k8s.io/apimachinery/pkg/apis/meta/v1"
 	"k8s.io/apimachinery/pkg/apis/meta/v1/unstructured"
@@ -60,7 +61,40 @@ func opConfigs() []opConfig {
 		{"podgrouper-image", func() kaiv1.ConfigSpec {
 			return kaiv1.ConfigSpec{PodGrouper: &pod_grouper.PodGrouper{Service: &kaicommon.Service{Image: &kaicommon.Image{Tag: ptr.To("v9.9.9")}}}}
 		}},
+		{"placement", func() kaiv1.ConfigSpec {
+			return kaiv1.ConfigSpec{Global: &kaiv1.GlobalConfig{NodeSelector: map[string]string{"pool": "infra"},
+				Tolerations: []corev1.Toleration{{Key: "dedicated", Operator: corev1.TolerationOpEqual, Value: "infra", Effect: corev1.TaintEffectNoSchedule}}}}
+		}},
 	}
+}
+
+// specDigest: what the deployed workloads look like, independent of the store they live in (no uids, versions,
+// time stamps, generated certificates): per Deployment / DaemonSet / Service / ServiceAccount / ConfigMap its labels,
+// annotations and spec / data. Two stores that hold the same configuration must agree on it whatever their history.
+func specDigest(c client.Client) string {
+	h := sha1.New()
+	for _, gvk := range ownedKinds {
+		switch gvk.Kind {
+		case "Deployment", "DaemonSet", "Service", "ServiceAccount", "ConfigMap":
+		default:
+			continue
+		}
+		l := &unstructured.UnstructuredList{}
+		l.SetGroupVersionKind(schema.GroupVersionKind{Group: gvk.Group, Version: gvk.Version, Kind: gvk.Kind + "List"})
+		if err := c.List(context.Background(), l); err != nil {
+			continue
+		}
+		sort.Slice(l.Items, func(i, j int) bool {
+			return l.Items[i].GetNamespace()+"/"+l.Items[i].GetName() < l.Items[j].GetNamespace()+"/"+l.Items[j].GetName()
+		})
+		for _, it := range l.Items {
+			o := map[string]any{"kind": gvk.Kind, "ns": it.GetNamespace(), "name": it.GetName(), "labels": it.GetLabels(), "annotations": it.GetAnnotations(),
+				"spec": it.Object["spec"], "data": it.Object["data"]}
+			b, _ := json.Marshal(o)
+			h.Write(b)
+		}
+	}
+	return fmt.Sprintf("%x", h.Sum(nil))
 }
 
 // the kinds the KAIConfig collectables own
@@ -105,8 +139,32 @@ func runOperator(out *tracefmt.Writer, seed int64) {
 		}
 	}()
 	ctx := context.Background()
-	for _, oc := range opConfigs() {
-		for store := 1; store <= 2; store++ {
+	freshSpec := map[string]string{} // config -> spec digest of a fresh install (first store, last round)
+	type hist struct {
+		name  string
+		steps []opConfig
+	}
+	var hists []hist
+	cfgs := opConfigs()
+	for _, oc := range cfgs {
+		hists = append(hists, hist{oc.name, []opConfig{oc}})
+	}
+	// configuration histories: A is installed and reconciled, then the Config is edited to B. The cluster must end
+	// up like a fresh install of B (every ordered pair with the defaults, and placement <-> each)
+	for _, a := range cfgs {
+		for _, b := range cfgs {
+			if a.name != b.name && (a.name == "defaults" || b.name == "defaults" || a.name == "placement" || b.name == "placement") {
+				hists = append(hists, hist{a.name + ">" + b.name, []opConfig{a, b}})
+			}
+		}
+	}
+	for _, hs := range hists {
+		oc := hs.steps[0]
+		nstores := 2
+		if len(hs.steps) > 1 {
+			nstores = 1
+		}
+		for store := 1; store <= nstores; store++ {
 			scheme := runtime.NewScheme()
 			_ = clientgoscheme.AddToScheme(scheme)
 			_ = kaiv1.AddToScheme(scheme)
@@ -145,33 +203,54 @@ func runOperator(out *tracefmt.Writer, seed int64) {
 					fmt.Printf("UPDATE %T %s\n--- stored\n%s\n--- desired\n%s\n", co, co.GetName(), a, b)
 				}
 			}
-			out.Emit(map[string]any{"ev": "Scenario", "id": fmt.Sprintf("operator/%s/store%d", oc.name, store), "class": "operator", "par": []int{0}, "gq": []int{1},
-				"pgof": []int{1}, "preq": []qty{{0, 0}}, "pre": []int{0}, "via": []int{0}, "hist": "Deploy x3 config=" + oc.name, "settle": 0})
+			out.Emit(map[string]any{"ev": "Scenario", "id": fmt.Sprintf("operator/%s/store%d", hs.name, store), "class": "operator", "par": []int{0}, "gq": []int{1},
+				"pgof": []int{1}, "preq": []qty{{0, 0}}, "pre": []int{0}, "via": []int{0}, "hist": "Deploy x3 per config, configs=" + hs.name, "settle": 0})
 			prevObjs, prevDig := "", ""
-			for round := 1; round <= 3; round++ {
-				cfg := kaiConfig.DeepCopy() // the reconciler reads the Config afresh and defaults it every time
-				cfg.Spec.SetDefaultsWhereNeeded()
-				k.Start()
-				err := d.Deploy(ctx, c, cfg, cfg)
-				cnt := k.Stop()
-				errs := ""
-				if err != nil {
-					errs = err.Error()
+			for si, stepCfg := range hs.steps {
+				oc = stepCfg
+				kaiConfig.Spec = oc.spec()
+				if si > 0 {
+					stored := &kaiv1.Config{}
+					if err := c.Get(ctx, client.ObjectKeyFromObject(kaiConfig), stored); err == nil {
+						stored.Spec = oc.spec()
+						_ = c.Update(ctx, stored)
+					}
+					prevObjs, prevDig = "", ""
 				}
-				objs, dig, n := storeDigest(c)
-				ch := 0
-				if round > 1 && (objs != prevObjs || dig != prevDig) {
-					ch = 1
+				for round := 1; round <= 3; round++ {
+					cfg := kaiConfig.DeepCopy() // the reconciler reads the Config afresh and defaults it every time
+					cfg.Spec.SetDefaultsWhereNeeded()
+					k.Start()
+					err := d.Deploy(ctx, c, cfg, cfg)
+					cnt := k.Stop()
+					errs := ""
+					if err != nil {
+						errs = err.Error()
+					}
+					objs, dig, n := storeDigest(c)
+					ch := 0
+					if round > 1 && (objs != prevObjs || dig != prevDig) {
+						ch = 1
+					}
+					if fs, ok := firstSet[oc.name]; ok && fs != objs {
+						ch = 1
+					} else if !ok {
+						firstSet[oc.name] = objs
+					}
+					// determined only by the configuration: the same workloads as a fresh install of this config
+					sd := specDigest(c)
+					if round == 3 {
+						if fd, ok := freshSpec[oc.name]; ok && fd != sd {
+							ch = 1
+						} else if !ok && len(hs.steps) == 1 {
+							freshSpec[oc.name] = sd
+						}
+					}
+					prevObjs, prevDig = objs, dig
+					out.Emit(map[string]any{"ev": "Deploy", "config": oc.name, "store": store, "round": round, "step": si, "err": errs, "w": cnt.Effective(), "ch": ch,
+						"calls":   fmt.Sprintf("create=%d update=%d patch=%d delete=%d %s", cnt.Create, cnt.Update, cnt.Patch, cnt.Delete, cnt.KindsString()),
+						"objects": objs, "digest": dig, "nobjects": n})
 				}
-				if fs, ok := firstSet[oc.name]; ok && fs != objs {
-					ch = 1
-				} else if !ok {
-					firstSet[oc.name] = objs
-				}
-				prevObjs, prevDig = objs, dig
-				out.Emit(map[string]any{"ev": "Deploy", "config": oc.name, "store": store, "round": round, "err": errs, "w": cnt.Effective(), "ch": ch,
-					"calls": fmt.Sprintf("create=%d update=%d patch=%d delete=%d %s", cnt.Create, cnt.Update, cnt.Patch, cnt.Delete, cnt.KindsString()),
-					"objects": objs, "digest": dig, "nobjects": n})
 			}
 		}
 	}
